@@ -87,6 +87,7 @@ static void do_op(int t, const char* op) {
 int main(int argc, char** argv) {
   if (argc < 2) return 2;
   vh_parse(argv[1]);
+  VH_DIRTY(wq);
   if (!work_queue_init(&wq)) return 2;
   name_node(wq.fifo.head); /* n1 = initial stub */
   vr_reg(&wq.in_count, sizeof wq.in_count, "in_count");
